@@ -48,11 +48,13 @@ Proof. exact history_invariant. Qed.
 Print Assumptions C01_lockstep.
 
 (* (5) under the invariant no read raises, except the KeyError that [] on a missing key must
-   raise, and no read changes the object *)
+   raise and the TypeError of inverted() when some value is unhashable (it cannot become a key),
+   and no read changes the object *)
 Theorem C01_reads_total : forall s o op_, Inv s -> Inv o -> wf_op op_ = true -> is_read op_ = true ->
   abs (fst (m_step s o op_)) = abs s /\
   ((exists x, snd (m_step s o op_) = Ok x) \/
-   (exists k, op_ = GetItem k /\ has_key (abs s) k = false /\ snd (m_step s o op_) = Raise KeyError)).
+   (exists k, op_ = GetItem k /\ has_key (abs s) k = false /\ snd (m_step s o op_) = Raise KeyError) \/
+   (op_ = Inverted /\ existsb unhashable (map snd (abs s)) = true /\ snd (m_step s o op_) = Raise TypeError)).
 Proof. exact reads_total. Qed.
 Print Assumptions C01_reads_total.
 
